@@ -11,7 +11,7 @@ CHECKS = [
         'text': 'Thousands of generated images (grown along their own execution on an independent reference machine, all '
                 'four widths, aligned/unaligned/self-modifying ops, IO, every termination cause) are run on the featured, '
                 'fast and native engines through fjm_run.run; cause, op count, fault address and the device-side IO call '
-                'log must equal the reference. Held = no divergence on the executions observed, not a proof.',
+                'log must equal the reference. Held = no divergence on the executions observed, not a proof. Includes images of 20-300 distinct 2^14-word pages walked several times (page-table growth) and 270 000-op chains (signal-poll cadence).',
         'note': 'trusts the 150-line reference machine, CPython, gcc; segments restricted to the 2^w-bit space',
     },
     {
@@ -20,7 +20,7 @@ CHECKS = [
         'text': 'Generated sparse images (page edges, cache-slot aliases, flat-window cuts, far segments, top of address '
                 'space, magic-valued words, many segments) are run under featured/fast and native flat/hybrid/paged storage, '
                 'with/without last-ops ring and measurement loop; cause, ops, fault address, IO log, last-ops list and the '
-                'final value of every touched/initialised in-segment word must equal the reference machine.',
+                'final value of every touched/initialised in-segment word must equal the reference machine. Includes many-page walks (20-300 pages, low and far) that make the page table grow while loading.',
         'note': 'trusts the reference machine; final memory observed through the DeviceMemory hook',
     },
     {
@@ -30,7 +30,7 @@ CHECKS = [
                 'threshold, shared data, boundary word values, deliberate flaws) are replayed on versions 0-3 and lzma presets; '
                 'the reader result must equal a 30-line model of what the calls mean (segments, words, invalidity outside), a '
                 'writer rejection must be the library write error, and corpus programs assembled at the four versions must load '
-                'identically.',
+                'identically. A third of the sequences are driven by a caller that catches a rejected call and goes on (model = the accepted calls); dedicated shards write 9-65 MiB pools with far repeats at every lzma preset (beyond the compressor window).',
         'note': 'trusts the call-sequence model; over-rejection by the writer is counted, not flagged (acceptance floor enforced)',
     },
     {
@@ -40,7 +40,7 @@ CHECKS = [
                 'field set to boundary and neighbouring values, payload damage incl. inside the lzma stream, random and '
                 'structure-aware files: Reader must raise only FlipJumpReadFjmException, accepted prefixes must load the '
                 'original image, accepted files must satisfy an independently coded consistency predicate, and fjm_run.run '
-                'on accepted files must end in a termination or library exception (RLIMIT_AS + watchdog).',
+                'on accepted files must end in a termination or library exception (RLIMIT_AS + watchdog). A mutation kind builds well-formed files whose only contradiction is the relation between 2-5 segments (empty, nested, overlapping, any table order).',
         'note': 'never-hangs restated as bounded progress (30 s per Reader call on files < 64 KiB); non-canonical but '
                 'consistent files are observations only',
     },
@@ -52,7 +52,7 @@ CHECKS = [
                 'tables, any 64-bit address, accessors interleaved with run, callbacks that raise/return non-bools/re-enter '
                 'through get_word/set_word), reader-accepted corrupted files, and the N-th allocation failing; any sanitizer '
                 'report or dead worker is a violation with the journalled case. Held = zero reports on the observed runs with '
-                '>= 80% line coverage of _fjcore.c measured by llvm-cov on the same workloads.',
+                '>= 80% line coverage of _fjcore.c measured by llvm-cov on the same workloads. C18\'s device-fault enumeration also runs on the ASan build (freed blocks are filled, so dangling Python objects handed out by an exception path kill the worker), with 33 000-140 000-op chains and many-page walks under the measure/ring/paged knobs, and rejected re-initialisations in the API fuzz.',
         'note': 'a clean sanitizer run is not memory safety (red zones miss far OOB into live allocations); MSan/TSan do not apply; '
                 're-entrant __init__/add_segment/run from a device callback is outside the property and not generated',
     },
@@ -62,7 +62,7 @@ CHECKS = [
         'text': 'All 131071 bit sequences of length <= 16 are written to FixedIO, StandardIO and KeyboardIO and all 65793 input '
                 'byte strings of length <= 2 are read from FixedIO (exhaustive), plus random sequences to 4096 bits with '
                 'interleaved reads, keyboard event scripts x read counts against a polling-protocol model, and StandardIO in a '
-                'subprocess through real pipes under latin-1 and UTF-8 stdin.',
+                'subprocess through real pipes under latin-1 and UTF-8 stdin. The collected output is also looked at mid-stream.',
         'note': 'interactive terminals and the pygame window are out of reach; StandardIO under UTF-8 stdin is a recorded known finding',
     },
     {
@@ -73,7 +73,7 @@ CHECKS = [
                 'fast and native flat/hybrid/paged/measure with and without the ring; what leaves run() (identity of the '
                 'exception, wrapping, cause, statistics) and the device-side record, op count, last-ops list and memory must '
                 'equal the reference machine stopped at that call. Real setitimer/SIGINT interrupts on endless loops check the '
-                'asynchronous case: the stopped state must be a sub-step state of the next op at the reported count.',
+                'asynchronous case: the stopped state must be a sub-step state of the next op at the reported count. The foreign failure is drawn from 22 built-in exception families; a worker killed by a fatal signal is a verdict.',
         'note': 'native signals are polled every 2^18 ops, so native async stops are observed only there; for exceptions that '
                 'leave run() no statistics object exists to inspect',
     },
@@ -85,7 +85,7 @@ CHECKS = [
                 'device reads, the effect of its writes on later ops and the final memory must equal the reference machine '
                 'executing the same script. The headless screen is fed random and structure-aware command streams and must '
                 'agree with an independently written decoder of the documented layout (frames, pixels, palette, rejection '
-                'point, device-error type); generated screen-driving programs must present the same frame hashes on all engines.',
+                'point, device-error type); generated screen-driving programs must present the same frame hashes on all engines. Devices also read and patch memory inside attach_memory.',
         'note': 'interactive pygame devices cannot be exercised (pygame absent); device writes outside segments are unspecified',
     },
     {
@@ -95,7 +95,7 @@ CHECKS = [
                 'unary x binary shape, ?: nests and every literal notation are assembled unparenthesised and the words observed '
                 'through 180 bits + sign + overflow must equal the value the frozen operator table (spec/operators.json) gives; '
                 'random trees to depth 6 are unparsed with minimal/random/full parentheses with every identifier bound as a '
-                'parse-time constant, a macro parameter or a label expression, so that all three folding stages must agree.',
+                'parse-time constant, a macro parameter or a label expression, so that all three folding stages must agree. Decimal literals of 3999-12345 digits are observed through a modulus, a shift and a difference.',
         'note': 'the operator table is my transcription of the grammar at the pinned commit and the documented examples; '
                 'expressions without a value (x/0, negative shifts) are C14 material',
     },
@@ -108,7 +108,7 @@ CHECKS = [
                 'missing/repeated files) plus token-, byte- and line-level mutations of generated valid programs and stl '
                 'programs, at all widths and versions: assemble() must succeed or raise a FlipJumpException that is not the '
                 'generic "unknown exception" wrapper, whose message names the construct where the generator knows it, within the '
-                'watchdog, leaving no loadable output file.',
+                'watchdog, leaving no loadable output file. Classes added by the seeding rounds: constants and literals of thousands of digits in 20+ positions, invisible and Python-only white-space characters, depth limit reached without recursion, reps/pads beyond a small memory (bounded work, CPU-time hang verdict), internal-name collisions; every third assembly also writes the debugging file, every seventh the statistics.',
         'note': 'never-hangs is bounded progress (30 s / 120 s with stl); astronomically large constants and unbounded rep counts '
                 'are unbounded-work programs, confined to a reported-only class',
     },
@@ -119,7 +119,7 @@ CHECKS = [
                 'warning modes, failing inputs of every C14 error class, recursion depths 5..5000, the stl at widths where it does '
                 'not fit, the probe itself twice) are followed by a probe assembly whose .fjm and .fjd bytes must equal those '
                 'of the probe assembled in a fresh process, under several PYTHONHASHSEED values, another working directory and a '
-                'copy of the sources elsewhere.',
+                'copy of the sources elsewhere. Probes a fresh process rejects must be rejected identically after every history; the corpus includes layout-shifted stl programs, a warning-only source, a deep-expression source and >2^16-word images, with targeted shapes (last-stage failure / small recursion depth / bigger image / tolerant warning mode right before the probe).',
         'note': 'observed at the files only; the parse cache is exercised cold, warm, warm for another width and warm for the other warning mode',
     },
     {
@@ -129,7 +129,7 @@ CHECKS = [
                 'through the fj one-step flow (with -o and, captured by a sys.addaudithook wrapper around the real main(), '
                 'without -o), the fj --asm -o / --run two-step flow and flipjump.assemble/run under random option '
                 'combinations; .fjm and .fjd bytes, program stdout and termination cause/op count must agree, and the defaults '
-                '(width 64, version 3 with -o, 1 without, stl included) are read from the produced headers.',
+                '(width 64, version 3 with -o, 1 without, stl included) are read from the produced headers. The API is also used as a library: sessions of 3-6 assemblies in one process (good, failing, repeated, the stl given explicitly) each compared with a fresh fj process; the one-call assemble_and_run is a fourth route; a warning-bearing program runs through every route in both warning modes; -o with a preset and no -v must equal the same command with -v 3.',
         'note': 'the API has no lzma-preset parameter, so version-3 bytes are compared with the API only at the default preset',
     },
     {
@@ -139,7 +139,7 @@ CHECKS = [
                 'segment, reserve; every number rendered as an expression over literals, constants, labels and $) at all widths '
                 'and versions are assembled and read back; every statement word, every label and every reserved word must equal '
                 'an independently computed denotation, each wflip is followed in the loaded image (exact set bits, popcount ops, '
-                'return address, auxiliary ops off user space), and layouts the model proves impossible must be rejected.',
+                'return address, auxiliary ops off user space), and layouts the model proves impossible must be rejected. Includes parity-only impossible layouts (odd start / odd span / both) and literals of 4000+ digits.',
         'note': 'one-sided on layout: model-impossible-but-assembled is a violation, model-possible-but-rejected is counted '
                 '(the appended wflip area may legitimately collide); pad-hole contents are unspecified',
     },
@@ -173,7 +173,7 @@ CHECKS = [
                 'denote (parameter, @ local, global, rep iterator, constant); spellings come from a six-name pool so caller and '
                 'callee identifiers collide at every depth. The macro rendering (call DAGs, arity overloading, nested namespaces '
                 'with dotted/relative names, reps with counts 0..5, 1-3 files) and the hand-inlined rendering (arguments '
-                'substituted in parentheses, locals renamed apart, reps unrolled) must assemble to identical segments and words.',
+                'substituted in parentheses, locals renamed apart, reps unrolled) must assemble to identical segments and words. Namespaces up to four deep with k-dot relative names; continuation lines and CRLF files.',
         'note': 'relies on the scoping rules of DESIGN Appendix B; extern (>) labels and label-valued parameters are not generated; '
                 'the inlined side is itself judged by C02',
     },
@@ -184,7 +184,7 @@ CHECKS = [
                 'expansion incl. rep iterations) must appear in the saved table under its expansion-path name with the address of '
                 'the statement it precedes (taken from the hand-inlined program), and no undeclared user-level name may appear; '
                 'random label dictionaries must survive save/load unchanged and in order; breakpoints by address, exact label '
-                'and substring must resolve to exactly the model set.',
+                'and substring must resolve to exactly the model set. Generated sources include backslash-newline continuations, CRLF files, namespaces four deep and k-dot relative names; a 10-70 MiB label table goes through save/load and breakpoint resolution.',
         'note': 'assembler bookkeeping names (:start:, :wflips:, wflip-area markers) are ignored',
     },
     {
@@ -210,7 +210,7 @@ CHECKS = [
                 'forms, shifts, cond_jumps, mul, div/idiv with every rem_opt). Single-macro programs enumerate every operand '
                 'value when the macro reads <= 16 bits (all 65536 digit pairs for n=2) and sample boundary-biased values above; '
                 'sequence programs of random applications over shared variables check that no carry or table state leaks; '
-                'slices are re-run on the pure-Python loop.',
+                'slices are re-run on the pure-Python loop. Also with the documented standalone inits (hex.tables.init_shared + the required table) at drawn positions incl. w=16, and with a carry left set by an earlier documented macro (every other macro must still compute its formula).',
         'note': 'spec table built by a sub-agent under the rule "transcribe the documentation, never the body", reviewed; '
                 'inputs the documentation leaves open (dirty undeclared state for table-using macros, overflowing idiv) are '
                 'counted as unspecified; w=16 is not exercised (hex.init does not fit)',
@@ -224,7 +224,7 @@ CHECKS = [
                 'of every variable and byte buffer; a witness flip before each SYNC exposes surplus output. Values are exhaustive up '
                 'to 12 read bits (16 thorough) and boundary-biased above (0, 10^k+-1, 2^k+-1, most negative), sizes to 16 hexes / '
                 '64 bits; inputs cover numerals of every length, invalid bytes at every position, empty input, missing terminators '
-                'and EOF in mid-token (re-runs with truncated input must end with cause EOF inside that application).',
+                'and EOF in mid-token (re-runs with truncated input must end with cause EOF inside that application). Buffers of 36 bytes (lengths around 16/32), decimal printing up to 200 bits / 49 hexes.',
         'note': 'monitor and spec built by a sub-agent under the rule "transcribe the documentation, never the body", reviewed; where '
                 'the documentation is silent (destination on the error branch, digit-less numerals) the aspect is unspecified',
     },
